@@ -55,6 +55,11 @@ BlankBodies == {<<NText(" \n ")>>, <<NText(" "), Assign("y", P(I(1))), NText(" "
                 <<NText(" "), Cycle("", <<S("")>>, "|''"), NText(" ")>>,
                 <<NText(" "), For("i", RangeE(I(1), I(2)), "(1..2)", NoOpt, NoOpt, FALSE, <<NText(" ")>>, NoElse), NText(" ")>>,
                 <<NText(" "), With(<<WArg("w", I(1))>>, <<NText(" ")>>), NText(" ")>>,
+                \* a loop whose body is silent but whose else branch is not (the iterable is empty), and the reverse
+                <<NText(" "), For("i", RangeE(I(2), I(1)), "(2..1)", NoOpt, NoOpt, FALSE, <<Assign("y", P(I(2)))>>, Else(<<NText("none")>>)), NText(" ")>>,
+                <<NText(" "), For("i", RangeE(I(1), I(2)), "(1..2)", NoOpt, NoOpt, FALSE, <<NText("it")>>, Else(<<NText(" ")>>)), NText(" ")>>,
+                <<NText(" "), If(FalseE, <<NText(" ")>>, <<Elif(TrueE, <<NText("elsif")>>)>>, NoElse), NText(" ")>>,
+                <<NText(" "), Unless(TrueE, <<NText(" ")>>, <<>>, Else(<<NText("else")>>)), NText(" ")>>,
                 <<NText(" "), Case(V("x"), <<When(<<I(1)>>, <<NText(" ")>>)>>, Else(<<NText(" ")>>)), NText(" ")>>}
 BlankBlocks == {If(TrueE, b, <<>>, NoElse) : b \in BlankBodies}
                \cup {If(FalseE, <<>>, <<>>, Else(b)) : b \in BlankBodies}
